@@ -99,6 +99,73 @@ IDIOMS = {
 }
 
 
+def render_import_graph(dep, mode, lits=(1,), funcs=(4,)):
+    """The same definition graph with every node in a module of its own and every edge an import edge
+    (mode: 'star' = `from mod_d import *`, 'from' = `from mod_d import v_d`, 'plain' = `import mod_d`):
+    cyclic graphs give import cycles, star-import cycles and mutually importing functions.
+    -> ({file name: text}, {stmt node: (file name, line of its use)})."""
+    nodes = sorted(dep)
+    files, uses = {}, {}
+
+    def name(d):
+        return ('f%d' if d in funcs else 'v%d') % d
+
+    def ref(d):
+        base = name(d) + ('()' if d in funcs else '')
+        return ('mod_%d.' % d + base) if mode == 'plain' else base
+    for n in nodes:
+        out = ['import random']
+        for d in dep[n]:
+            if d == n:
+                continue
+            out.append({'star': 'from mod_%d import *', 'from': 'from mod_%d import ' + name(d), 'plain': 'import mod_%d'}[mode]
+                       % d)
+        if mode == 'star' and n in dep[n]:
+            out.append('from mod_%d import *' % n)          # a module star-importing itself
+        out.append('')
+        if n in lits:
+            out.append('v%d = 1' % n)
+        elif n in funcs:
+            out.append('def f%d():' % n)
+            for d in dep[n]:
+                out += ['    if random.random():', '        return ' + (ref(d) if d != n else 'f%d()' % n)]
+            out += ['    return unknown_zz', '']
+        else:
+            ds = dep[n]
+            if not ds:
+                out.append('v%d = unknown_zz' % n)
+            for i, d in enumerate(ds):
+                r = ref(d) if d != n else 'v%d' % n
+                if len(ds) == 1:
+                    out.append('v%d = %s' % (n, r))
+                else:
+                    out += ['if random.random() > 0.%d:' % (i + 1) if i == 0 else ('elif random.random() > 0.%d:' % (i + 1)
+                                                                                    if i < len(ds) - 1 else 'else:'),
+                            '    v%d = %s' % (n, r)]
+            out += ['', 'v%d' % n]
+            uses[n] = ('mod_%d.py' % n, len(out))
+            out.append('missing_zz')                          # defined nowhere: the lookup walks all star imports
+            uses[-n] = ('mod_%d.py' % n, len(out))
+        files['mod_%d.py' % n] = '\n'.join(out) + '\n'
+    return files, uses
+
+
+IMPORT_IDIOMS = {
+    'star_cycle_2': ({'a.py': 'from b import *\nxa = 1\nyb\nmissing_zz\n', 'b.py': 'from a import *\nyb = xa\n'}, 'a.py'),
+    'star_cycle_3': ({'a.py': 'from b import *\nxa = 1\nzc\nmissing_zz\n', 'b.py': 'from c import *\nyb = 2\n',
+                      'c.py': 'from a import *\nzc = xa\n'}, 'a.py'),
+    'star_self': ({'a.py': 'from a import *\nxa = 1\nxa\nmissing_zz\n'}, 'a.py'),
+    'from_cycle': ({'a.py': 'from b import yb\nxa = yb\nxa\n', 'b.py': 'from a import xa\nyb = xa\n'}, 'a.py'),
+    'plain_cycle': ({'a.py': 'import b\nxa = b.yb\nxa\n', 'b.py': 'import a\nyb = a.xa\n'}, 'a.py'),
+    'pkg_init_cycle': ({'pkg/__init__.py': 'from pkg.sub import thing\nroot = thing\n', 'pkg/sub.py': 'import pkg\nthing = pkg.root\n',
+                        'main.py': 'import pkg\npkg.root\n'}, 'main.py'),
+    'relative_star_cycle': ({'pkg/__init__.py': '', 'pkg/a.py': 'from .b import *\nxa = yb\nxa\nmissing_zz\n',
+                             'pkg/b.py': 'from .a import *\nyb = xa\n'}, 'pkg/a.py'),
+    'star_reexport_chain_cycle': ({'a.py': 'from b import *\nfrom c import *\nxa\nmissing_zz\n', 'b.py': 'from c import *\nfrom a import *\n',
+                                   'c.py': 'from a import *\nfrom b import *\nxa = 1\n'}, 'a.py'),
+}
+
+
 def family(kind, n):
     if kind == 'chain':            # v0 = 1; v1 = v0; ... ; vn
         return 'v0 = 1\n' + ''.join('v%d = v%d\n' % (i, i - 1) for i in range(1, n + 1)) + 'v%d\n' % n
